@@ -31,6 +31,9 @@ type Dyn struct {
 	ReadSize    int        `json:"read_size"`    // 0 = library default
 	Seg         devsim.Seg `json:"seg"`          // transport segmentation
 	CloseAt     string     `json:"close_at"`     // level to be at when Close is called ("" = wherever)
+	// Preload: a variant loaded in the same process right before the session's own load (a shipped
+	// variant by name, or "gen" = the generated variant from bytes); the session then runs on the base
+	Preload string `json:"preload,omitempty"`
 }
 
 func (s Dyn) label() string {
@@ -207,6 +210,22 @@ func RunDyn(s Dyn) mon.Result {
 		opts = append(opts, options.WithDefaultDesiredPriv(s.UserDefault))
 		effDefault = s.UserDefault
 	}
+	if s.Preload != "" {
+		var pf interface{} = arg
+		pv := s.Preload
+		if s.Preload == "gen" {
+			gb, err := genVariantDef(b, allButDriverType, "")
+			if err != nil {
+				return mon.Result{Verdict: mon.Inconclusive, Detail: "harness: " + err.Error()}
+			}
+			pf = gb
+		}
+		pconn := devsim.NewConn(&devsim.CLI{}, devsim.Config{})
+		defer pconn.Abandon()
+		if _, err, pnc := newPlatformH(pf, pv, "other-host", options.WithCustomTransport(pconn)); err != nil || pnc != nil {
+			return viol("c17/load-failed:"+label+"/"+pv, "loading variant %q before the session failed: %v %v", pv, err, pnc)
+		}
+	}
 	p, err, pnc := newPlatform(arg, variant, opts...)
 	if pnc != nil {
 		return viol("c17/load-panic:"+label, "constructor panicked: %v", pnc)
@@ -215,6 +234,11 @@ func RunDyn(s Dyn) mon.Result {
 		return viol("c17/load-failed:"+label, "constructor failed: %v", err)
 	}
 	if v := compareLoaded(label, eff, p, false); v != nil {
+		if s.Preload != "" {
+			what := strings.TrimPrefix(v.Key, "c17/loaded-differs:"+label+":")
+			v.Key = "c17/load-order:" + s.Platform + ":variant-base-dynamic:loaded-differs:" + what
+			v.Detail = fmt.Sprintf("variant %q was loaded in this process before the base definition: %s", s.Preload, v.Detail)
+		}
 		return *v
 	}
 	d, v := checkGetter(label, eff, p)
